@@ -12,20 +12,22 @@ use proptest::prelude::*;
 pub struct C03;
 
 impl Prop for C03 {
-    type Case = EncCase;
+    type Case = PktCase;
     fn id(&self) -> &'static str {
         "C03"
     }
     fn rule(&self) -> String {
-        "generated: every encoder (17 requests, 6 responses, vendor_defined, the four trait-level writers) x full-range arguments x 7-bit addresses x EID state, bodies from empty to the frame limit (packet lengths 12..259). oracle: independent bitwise CRC-8 (poly 0x07, init 0). non-trivial = the encoder returned Ok; distinct by hash of (environment, call)".into()
+        "generated: responses produced by process_packet for forged requests (any command, instance id, transport flags) and every encoder (17 requests, 6 responses, vendor_defined, the four trait-level writers) x full-range arguments x 7-bit addresses x EID state, bodies from empty to the frame limit (packet lengths 12..259). oracle: independent bitwise CRC-8 (poly 0x07, init 0). non-trivial = the encoder returned Ok; distinct by hash of (environment, call)".into()
     }
     fn assumptions(&self) -> Vec<String> {
         vec!["7-bit addresses; arguments within documented shapes".into()]
     }
-    fn strategy(&self, _tier: Tier) -> BoxedStrategy<EncCase> {
-        (gen::enc_env(gen::addr7().boxed()), gen::enc_call(false, false, true))
-            .prop_map(|(env, call)| EncCase { env, call })
-            .boxed()
+    fn strategy(&self, _tier: Tier) -> BoxedStrategy<PktCase> {
+        prop_oneof![
+            5 => (gen::enc_env(gen::addr7().boxed()), gen::enc_call(false, false, true)).prop_map(|(env, call)| PktCase::Enc(EncCase { env, call })),
+            1 => gen::resp_case().prop_map(PktCase::Resp),
+        ]
+        .boxed()
     }
     fn budget(&self, tier: Tier) -> u64 {
         match tier {
@@ -34,18 +36,28 @@ impl Prop for C03 {
         }
     }
     fn required_labels(&self) -> Vec<&'static str> {
-        vec!["len12-15", "len16-31", "len32-63", "len64-127", "len128-255", "len256-259"]
+        vec!["len12-15", "len16-31", "len32-63", "len64-127", "len128-255", "len256-259", "process_packet_response"]
     }
-    fn run(&self, case: &EncCase) -> CaseResult {
+    fn run(&self, case: &PktCase) -> CaseResult {
         let mut r = CaseResult::default();
-        // labels come from the reference model so that generator health does
-        // not depend on the behaviour of the code under test
-        if let RefEnc::Packet(p) = refmodel::ref_encode(&case.call, case.env.eid_resp) {
-            let extra = if p.exact { 0 } else { 3 };
-            r.label(len_bucket(p.body.len() + 10 + extra));
-        }
-        let (e, buf) = encode_in(&case.env, &case.call, BIG, |_| 0x5A);
-        let Enc::Ok(len) = e else { return r };
+        let (buf, len, kind) = match case {
+            PktCase::Enc(case) => {
+                // labels come from the reference model so that generator health does
+                // not depend on the behaviour of the code under test
+                if let RefEnc::Packet(p) = refmodel::ref_encode(&case.call, case.env.eid_resp) {
+                    let extra = if p.exact { 0 } else { 3 };
+                    r.label(len_bucket(p.body.len() + 10 + extra));
+                }
+                let (e, buf) = encode_in(&case.env, &case.call, BIG, |_| 0x5A);
+                let Enc::Ok(len) = e else { return r };
+                (buf, len, case.call.kind())
+            }
+            PktCase::Resp(c) => {
+                r.label("process_packet_response");
+                let Some(p) = produce_response(c) else { return r };
+                (p.buf, p.len, p.kind)
+            }
+        };
         if len < 2 || len > buf.len() {
             return r;
         }
@@ -53,7 +65,7 @@ impl Prop for C03 {
         let want = crc8(&buf[..len - 1]);
         if buf[len - 1] != want || crc8(&buf[..len]) != 0 {
             r.fail(
-                format!("C03:{}:pec", case.call.kind()),
+                format!("C03:{}:pec", kind),
                 format!("packet {} ends with {:#04x}, CRC-8 of the preceding {} bytes is {:#04x}", hex(&buf[..len]), buf[len - 1], len - 1, want),
             );
         }
